@@ -279,7 +279,7 @@ def ob_start_point(tomo, sysname, m, flag, algo_name):
         eps = I["eps"]
         if algo_name == "backtracking":
             algo = B.ProjectedGradientDescentBacktracking(func_proj=P)
-            opt = B.ProjectedGradientDescentBacktrackingOption(mu=1.0, gamma=0.3, eps=eps, max_iteration_optimization=1)
+            opt = B.ProjectedGradientDescentBacktrackingOption(gamma=0.3, eps=eps, max_iteration_optimization=1)      # mu left at its default (None)
         elif algo_name == "momentum":
             algo = M.ProjectedGradientDescentWithMomentum(func_proj=P)
             opt = M.ProjectedGradientDescentWithMomentumOption(r=1.0, eps=eps, max_iteration_optimization=1)
@@ -289,6 +289,7 @@ def ob_start_point(tomo, sysname, m, flag, algo_name):
         algo.set_from_loss(loss)
         algo.set_from_option(opt)
         algo.set_constraint_from_standard_qt_and_option(qt, opt)
+        opt_before = dict(vars(opt))
         import c11
         import quara.minimization_algorithm.projected_gradient_descent_backtracking as BB
         orig = BB.ProjectedGradientDescentBacktracking._is_doing_for_alpha
@@ -311,6 +312,10 @@ def ob_start_point(tomo, sysname, m, flag, algo_name):
         out = [Eq("x[0] == origin object's variables", res.x[0], origin.to_var(), 0.0),
                Holds("origin object is physical", bool(origin.is_physical(1e-12, 1e-12))),
                Eq("origin variables describe the origin object", np.array(st, dtype=object), origin.to_stacked_vector(), 1e-12)]
+        # defaults derived during the run (start point, mu) are not written back into the option object
+        opt_after = dict(vars(opt))
+        out.append(Holds("the option object is unchanged by the run", sorted(opt_before) == sorted(opt_after) and
+                         all((opt_before[k_] is opt_after[k_]) or (not isinstance(opt_before[k_], (np.ndarray, Sym)) and opt_before[k_] == opt_after[k_]) for k_ in opt_before)))
         return out
     return FnOb([("eps", "real", 1e-12, 1e-2)], run, max_paths=60, expect_nonlinear=True, stubs=["f, g, P uninterpreted"])
 
